@@ -1,0 +1,351 @@
+//! Verification hooks. Compiled only with the `verif-hooks` feature.
+//!
+//! Everything here is a read-only probe (raw data, no judgement) or a
+//! deterministic control (seed, step budget). Nothing in this module is used
+//! by the library itself.
+use std::{
+    collections::hash_map::DefaultHasher,
+    hash::{Hash, Hasher},
+    rc::Rc,
+};
+
+use serde_json::{Value as J, json};
+
+use crate::{
+    choice_point::ChoicePoint,
+    container::Container,
+    control_command::ControlCommand,
+    divert::Divert,
+    glue::Glue,
+    native_function_call::NativeFunctionCall,
+    object::{Object, RTObject},
+    path::Path,
+    push_pop::PushPopType,
+    story::Story,
+    tag::Tag,
+    value::Value,
+    value_type::ValueType,
+    variable_assigment::VariableAssignment,
+    variable_reference::VariableReference,
+    void::Void,
+};
+
+fn comps(p: &Path) -> J {
+    let mut v = Vec::new();
+    for i in 0..p.len() {
+        let c = p.get_component(i).unwrap();
+        match c.index {
+            Some(ix) => v.push(format!("i{ix}")),
+            None => v.push(format!("n{}", c.name.as_ref().unwrap())),
+        }
+    }
+    json!(v)
+}
+
+fn hash_of(p: &Path) -> u64 {
+    let mut h = DefaultHasher::new();
+    p.hash(&mut h);
+    h.finish()
+}
+
+fn same(a: &Rc<dyn RTObject>, b: &Rc<dyn RTObject>) -> bool {
+    let a = a.as_ref() as *const _ as *const ();
+    let b = b.as_ref() as *const _ as *const ();
+    std::ptr::eq(a, b)
+}
+
+/// Raw facts about a path: components, relative flag, text, and the same for
+/// the path obtained by parsing that text again.
+fn path_facts(prefix: &str, p: &Path, row: &mut serde_json::Map<String, J>) {
+    let s = p.to_string();
+    let q = Path::new_with_components_string(Some(&s));
+    row.insert(format!("{prefix}c"), comps(p));
+    row.insert(format!("{prefix}r"), json!(p.is_relative()));
+    row.insert(format!("{prefix}s"), json!(s));
+    row.insert(format!("{prefix}pc"), comps(&q));
+    row.insert(format!("{prefix}pr"), json!(q.is_relative()));
+    row.insert(format!("{prefix}ps"), json!(q.to_string()));
+    row.insert(format!("{prefix}eq"), json!(*p == q));
+    row.insert(format!("{prefix}heq"), json!(hash_of(p) == hash_of(&q)));
+}
+
+fn describe(obj: &Rc<dyn RTObject>) -> (String, J) {
+    let any = obj.as_ref().as_any();
+    if let Some(c) = any.downcast_ref::<Container>() {
+        return (
+            "container".into(),
+            json!({"name": c.name, "flags": c.get_count_flags()}),
+        );
+    }
+    if let Some(v) = any.downcast_ref::<Value>() {
+        return match &v.value {
+            ValueType::Bool(b) => ("bool".into(), json!(b)),
+            ValueType::Int(i) => ("int".into(), json!(i)),
+            ValueType::Float(f) => ("float".into(), json!(f.to_bits())),
+            ValueType::String(s) => ("str".into(), json!(s.string)),
+            ValueType::DivertTarget(p) => ("dtarget".into(), json!(p.to_string())),
+            ValueType::VariablePointer(p) => (
+                "varptr".into(),
+                json!({"name": p.variable_name, "ci": p.context_index}),
+            ),
+            ValueType::List(l) => {
+                let mut items: Vec<(String, String, i32)> = l
+                    .items
+                    .iter()
+                    .map(|(k, v)| {
+                        (
+                            k.get_origin_name().cloned().unwrap_or_default(),
+                            k.get_item_name().to_string(),
+                            *v,
+                        )
+                    })
+                    .collect();
+                items.sort();
+                let mut origins = l.get_origin_names();
+                origins.sort();
+                ("list".into(), json!({"items": items, "origins": origins}))
+            }
+        };
+    }
+    if let Some(c) = any.downcast_ref::<ControlCommand>() {
+        return ("cmd".into(), json!(ControlCommand::get_name(c.command_type)));
+    }
+    if let Some(n) = any.downcast_ref::<NativeFunctionCall>() {
+        return ("native".into(), json!(NativeFunctionCall::get_name(n.op)));
+    }
+    if let Some(d) = any.downcast_ref::<Divert>() {
+        let t = match d.stack_push_type {
+            PushPopType::Tunnel => "tunnel",
+            PushPopType::Function => "function",
+            PushPopType::FunctionEvaluationFromGame => "game",
+        };
+        return (
+            "divert".into(),
+            json!({"push": d.pushes_to_stack, "type": t, "ext": d.is_external,
+                   "exargs": d.external_args, "cond": d.is_conditional,
+                   "var": d.variable_divert_name}),
+        );
+    }
+    if let Some(c) = any.downcast_ref::<ChoicePoint>() {
+        return ("choice".into(), json!(c.get_flags()));
+    }
+    if let Some(v) = any.downcast_ref::<VariableReference>() {
+        return (
+            "varref".into(),
+            json!({"name": v.name, "count": v.path_for_count.as_ref().map(|p| p.to_string())}),
+        );
+    }
+    if let Some(v) = any.downcast_ref::<VariableAssignment>() {
+        return (
+            "varass".into(),
+            json!({"name": v.variable_name, "global": v.is_global, "new": v.is_new_declaration}),
+        );
+    }
+    if any.is::<Glue>() {
+        return ("glue".into(), J::Null);
+    }
+    if any.is::<Void>() {
+        return ("void".into(), J::Null);
+    }
+    if let Some(t) = any.downcast_ref::<Tag>() {
+        return ("tag".into(), json!(t.get_text()));
+    }
+    ("other".into(), json!(obj.to_string()))
+}
+
+fn walk(
+    c: &Rc<Container>,
+    addr: &mut Vec<String>,
+    out: &mut Vec<(Vec<String>, Rc<dyn RTObject>)>,
+) {
+    out.push((addr.clone(), c.clone() as Rc<dyn RTObject>));
+    for (i, o) in c.content.iter().enumerate() {
+        addr.push(i.to_string());
+        if let Ok(cc) = o.clone().into_any().downcast::<Container>() {
+            walk(&cc, addr, out);
+        } else {
+            out.push((addr.clone(), o.clone()));
+        }
+        addr.pop();
+    }
+    let named = c.get_named_only_content();
+    let mut keys: Vec<&String> = named.keys().collect();
+    keys.sort();
+    for k in keys {
+        addr.push(format!("n:{k}"));
+        walk(&named[k], addr, out);
+        addr.pop();
+    }
+}
+
+impl Story {
+    /// Fix the story seed and the previous random value.
+    pub fn verif_set_seed(&mut self, seed: i32, previous_random: i32) {
+        self.state.story_seed = seed;
+        self.state.previous_random = previous_random;
+    }
+
+    pub fn verif_get_seed(&self) -> (i32, i32) {
+        (self.state.story_seed, self.state.previous_random)
+    }
+
+    /// Step budget for the continue loop: `Some(n)` makes every later
+    /// continue fail with "VERIF_FUEL" once `n` further steps have been taken.
+    pub fn verif_set_fuel(&mut self, fuel: Option<u64>) {
+        self.verif_fuel = fuel;
+    }
+
+    /// Virtual clock: when on, a time-limited continue pauses after
+    /// `millisecs_limit_async` (rounded down) steps instead of reading the clock.
+    pub fn verif_set_step_clock(&mut self, on: bool) {
+        self.verif_step_clock = on;
+    }
+
+    pub fn verif_async_active(&self) -> bool {
+        self.async_continue_active
+    }
+
+    pub fn verif_quiescence(&self) -> J {
+        json!({
+            "rec": self.recursive_continue_count,
+            "async": self.async_continue_active,
+            "snapshot": self.state_snapshot_at_last_new_line.is_some(),
+            "unsafe": self.saw_lookahead_unsafe_function_after_new_line,
+            "tmp": self.temporary_evaluation_container.is_some(),
+        })
+    }
+
+    /// One JSON object per reachable runtime object (rows `"t":"obj"`), per
+    /// path-carrying reference (`"t":"ref"`), per sampled ordered pair of
+    /// objects (`"t":"pair"`) and one for the list definitions.
+    pub fn verif_audit(&self) -> Vec<String> {
+        let root = self.main_content_container.clone();
+        let mut objs = Vec::new();
+        walk(&root, &mut Vec::new(), &mut objs);
+        let mut rows: Vec<J> = Vec::new();
+
+        for (addr, o) in &objs {
+            let mut row = serde_json::Map::new();
+            let (k, d) = describe(o);
+            row.insert("t".into(), json!("obj"));
+            row.insert("a".into(), json!(addr));
+            row.insert("k".into(), json!(k));
+            row.insert("d".into(), d);
+            let p = Object::get_path(o.as_ref());
+            path_facts("p", &p, &mut row);
+            let sr = root.content_at_path(&p, 0, -1);
+            row.insert("res".into(), json!(same(&sr.obj, o)));
+            row.insert("apx".into(), json!(sr.approximate));
+            let ptr = match Story::pointer_at_path(&root, &p) {
+                Ok(ptr) => match ptr.resolve() {
+                    Some(r) => {
+                        if same(&r, o) {
+                            "ok"
+                        } else {
+                            "diff"
+                        }
+                    }
+                    None => "null",
+                },
+                Err(_) => "err",
+            };
+            row.insert("ptr".into(), json!(ptr));
+            rows.push(J::Object(row));
+        }
+
+        for (addr, o) in &objs {
+            let any = o.as_ref().as_any();
+            let mut raw: Option<Path> = None;
+            let mut compact: Option<String> = None;
+            let mut kind = "";
+            if let Ok(d) = o.clone().into_any().downcast::<Divert>() {
+                if !d.is_external {
+                    raw = d.verif_raw_target_path();
+                    kind = "divert";
+                }
+            } else if let Some(c) = any.downcast_ref::<ChoicePoint>() {
+                raw = Some(c.verif_raw_path_on_choice());
+                kind = "choice";
+            } else if let Some(v) = any.downcast_ref::<VariableReference>() {
+                raw = v.path_for_count.clone();
+                kind = "count";
+            } else if let Some(v) = any.downcast_ref::<Value>()
+                && let ValueType::DivertTarget(p) = &v.value
+            {
+                raw = Some(p.clone());
+                kind = "dtarget";
+            }
+            let Some(raw) = raw else { continue };
+            let mut row = serde_json::Map::new();
+            row.insert("t".into(), json!("ref"));
+            row.insert("a".into(), json!(addr));
+            row.insert("k".into(), json!(kind));
+            path_facts("r", &raw, &mut row);
+            let sr = Object::resolve_path(o.clone(), &raw);
+            row.insert("apx".into(), json!(sr.approximate));
+            row.insert(
+                "tgt".into(),
+                json!(Object::get_path(sr.obj.as_ref()).to_string()),
+            );
+            row.insert("tgtc".into(), json!(sr.container().is_some()));
+            // compact form as the engine writes it into saves / choices
+            let _ = Object::get_path(o.as_ref());
+            if kind != "dtarget" {
+                compact = Some(Object::compact_path_string(o.clone(), &raw));
+            }
+            row.insert("compact".into(), json!(compact));
+            rows.push(J::Object(row));
+        }
+
+        let n = objs.len();
+        if n > 1 {
+            for i in 0..n {
+                for j in [(i * 7 + 3) % n, (i + 1) % n, (i * 31 + 11) % n] {
+                    if i == j {
+                        continue;
+                    }
+                    let (aa, a) = &objs[i];
+                    let (ba, b) = &objs[j];
+                    let _ = Object::get_path(a.as_ref());
+                    let pb = Object::get_path(b.as_ref());
+                    let rel = Object::convert_path_to_relative(a, &pb);
+                    let mut row = serde_json::Map::new();
+                    row.insert("t".into(), json!("pair"));
+                    row.insert("a".into(), json!(aa));
+                    row.insert("b".into(), json!(ba));
+                    path_facts("l", &rel, &mut row);
+                    let back = if rel.is_relative() {
+                        Object::get_path(a.as_ref()).path_by_appending_path(&rel)
+                    } else {
+                        rel.clone()
+                    };
+                    row.insert("back".into(), json!(back.to_string()));
+                    row.insert("backeq".into(), json!(back == pb));
+                    let sr = Object::resolve_path(a.clone(), &rel);
+                    row.insert("res".into(), json!(same(&sr.obj, b)));
+                    row.insert("apx".into(), json!(sr.approximate));
+                    rows.push(J::Object(row));
+                }
+            }
+        }
+
+        rows.iter().map(|r| r.to_string()).collect()
+    }
+
+    /// Raw facts about an arbitrary path text (parse, print, re-parse, hash).
+    pub fn verif_path_probe(text: &str) -> String {
+        let p = Path::new_with_components_string(Some(text));
+        let mut row = serde_json::Map::new();
+        path_facts("p", &p, &mut row);
+        let built = Path::new(
+            &(0..p.len())
+                .map(|i| p.get_component(i).unwrap().clone())
+                .collect::<Vec<_>>(),
+            p.is_relative(),
+        );
+        row.insert("bs".into(), json!(built.to_string()));
+        row.insert("beq".into(), json!(built == p));
+        row.insert("bheq".into(), json!(hash_of(&built) == hash_of(&p)));
+        J::Object(row).to_string()
+    }
+}
